@@ -5,7 +5,7 @@ Import ListNotations.
 From DD Require Import Base.PyStr Base.Value Base.ValueFacts Path.PathModel Diff.Tree Diff.DiffModel
   Diff.DiffFacts Diff.DiffFaithful Delta.DeltaModel Delta.DeltaFacts Delta.DeltaLocal Delta.DeltaEntries
   Delta.DeltaStruct Delta.DeltaRun Delta.DeltaGuard Delta.DeltaGood Delta.DeltaNodes Delta.DeltaCompose
-  Delta.DeltaListNode Delta.DeltaListSim Delta.DeltaDictNode Delta.DeltaDictSim Delta.DeltaLeaves.
+  Delta.DeltaListNode Delta.DeltaListSim Delta.DeltaDictNode Delta.DeltaDictSim Delta.DeltaSets Delta.DeltaSeq Delta.DeltaSeqNodes Delta.DeltaLeaves.
 
 Section Roundtrip.
 Variable hatom : atom -> pystr.
@@ -19,9 +19,11 @@ Notation guards := (guards c conv bidir always).
 Notation okp := (okp conv bidir always).
 Notation okp_list := (okp_list conv bidir always).
 Notation okp_dict := (okp_dict conv bidir always).
+Notation opsv := (opsv ops).
+Notation opsv_list := (opsv_list ops).
+Notation opsv_dict := (opsv_dict ops).
 
 Hypothesis Hinj : forall a b, hatom a = hatom b -> a = b.
-Hypothesis Hops : forall p xs ys, forallb is_atom xs = true -> forallb is_atom ys = true -> valid_ops xs ys (ops p xs ys).
 Hypothesis Hconv : forall ty0 v v', conv ty0 v = Some v' -> type_of v' = ty0.
 
 Lemma okp_list_nth xs : forall ys k x y,
@@ -35,6 +37,24 @@ Proof.
 Qed.
 
 Lemma okp_dict_in kvs2 l k v1 v2 : okp_dict kvs2 l -> In (k, v1) l -> assoc k kvs2 = Some v2 -> okp v1 v2.
+Proof.
+  induction l as [|[k0 v0] l IH]; intros H Hin A; [destruct Hin|]. cbn in H. destruct H as [H0 H].
+  destruct Hin as [Hin|Hin].
+  - inversion Hin; subst. rewrite A in H0. exact H0.
+  - apply IH; assumption.
+Qed.
+
+Lemma opsv_list_nth q xs : forall ys i k x y,
+  opsv_list q xs ys i -> nth_error xs k = Some x -> nth_error ys k = Some y -> opsv x y (snoc q (PIdx (i + k))).
+Proof.
+  induction xs as [|x0 xs IH]; intros ys i k x y H Hx Hy; [destruct k; discriminate|].
+  destruct ys as [|y0 ys]; [destruct k; discriminate|]. cbn in H. destruct H as [H0 H].
+  destruct k as [|k]; cbn in Hx, Hy.
+  - inversion Hx; inversion Hy; subst. rewrite Nat.add_0_r. exact H0.
+  - rewrite Nat.add_succ_r. apply (IH ys (S i) k x y H Hx Hy).
+Qed.
+
+Lemma opsv_dict_in q kvs2 l k v1 v2 : opsv_dict q kvs2 l -> In (k, v1) l -> assoc k kvs2 = Some v2 -> opsv v1 v2 (snoc q (PKey k)).
 Proof.
   induction l as [|[k0 v0] l IH]; intros H Hin A; [destruct Hin|]. cbn in H. destruct H as [H0 H].
   destruct Hin as [Hin|Hin].
@@ -98,9 +118,9 @@ Proof.
   intros T H. destruct t1, t2; cbn in T; try discriminate T; cbn in H; try rewrite T in H; exact H.
 Qed.
 
-Theorem good_all : forall t1 t2 q, guards t1 t2 -> Good t1 t2 q.
+Theorem good_all : forall t1 t2 q, guards t1 t2 -> opsv t1 t2 q -> Good t1 t2 q.
 Proof.
-  induction t1 as [a|xs IH|xs IH|kvs IH|xs|xs] using value_ind'; intros t2 q G;
+  induction t1 as [a|xs IH|xs IH|kvs IH|xs|xs] using value_ind'; intros t2 q G OV;
     (match goal with |- Good ?t1 _ _ => destruct (ty_eqb (type_of t1) (type_of t2)) eqn:T end;
      [|destruct G as (W1 & W2 & _ & OK & _); apply Good_type; try assumption; apply tc_of_okp; assumption]).
   all: apply ty_eqb_true in T; destruct t2; try discriminate T; try (destruct a; discriminate T).
@@ -111,7 +131,8 @@ Proof.
     destruct (negb (zip c) && forallb is_atom xs && forallb is_atom ys) eqn:Cd.
     + apply andb_true_iff in Cd as [Cd Ay]. apply andb_true_iff in Cd as [Z Ax]. apply negb_true_iff in Z.
       destruct G as (_ & _ & AF & _).
-      apply (Good_leaf_seq hatom udiff ops c conv bidir always) with (tup := false); try assumption. discriminate.
+      rewrite opsv_list_eq in OV. destruct OV as [OV _].
+      apply (Good_leaf_seq hatom udiff ops c conv bidir always) with (tup := false); try assumption; [discriminate|apply OV; assumption].
     + intros T1 T2 R1 R2.
       assert (ED : D hatom udiff ops c conv bidir always T1 T2 (VList xs) (VList ys) q
                    = DL hatom udiff ops c conv bidir always T1 T2 q 0 xs ys).
@@ -119,14 +140,16 @@ Proof.
       rewrite ED. pose proof G as (W1 & W2 & _).
       apply list_node_good; try assumption.
       intros k x y Hx Hy. pose proof (nth_error_In _ _ Hx) as Ix. eapply Forall_forall in IH; [|exact Ix].
-      apply IH. eapply guards_list_child; eassumption.
+      apply IH; [eapply guards_list_child; eassumption|].
+      rewrite opsv_list_eq in OV. destruct OV as [_ OV]. apply (opsv_list_nth q xs ys 0 k x y OV Hx Hy).
   - (* tuples *)
     rename xs0 into ys. pose proof G as (_ & _ & AF & OK & _). cbn in OK. destruct OK as (Ax & Ay & L).
     destruct (zip c) eqn:Z.
-    + apply (Good_tuple_zip hatom udiff ops c conv bidir always); assumption.
-    + apply (Good_leaf_seq hatom udiff ops c conv bidir always) with (tup := true); try assumption. intros _. exact L.
+    + apply Good_tuple_zip; assumption.
+    + rewrite opsv_tuple_eq in OV. destruct OV as [OV _].
+      apply (Good_leaf_seq hatom udiff ops c conv bidir always) with (tup := true); try assumption; [intros _; exact L|apply OV; assumption].
   - (* dicts *)
-    rename l into kvs2. pose proof G as (W1 & W2 & _).
+    rename kvs0 into kvs2. pose proof G as (W1 & W2 & _).
     destruct (dict_shortcut nos c (keys_of c kvs) (keys_of c kvs2) q) eqn:Sh.
     + intros T1 T2 R1 R2. unfold D, E. rewrite diff_dict by reflexivity. unfold dict_body. rewrite Sh.
       cbn [fst snd report nos]. rewrite mutual_single by reflexivity. apply good_single_value; assumption.
@@ -134,12 +157,50 @@ Proof.
       destruct (guards_keep kvs kvs2 G) as [K1 K2].
       apply (dict_node_good hatom udiff ops c conv bidir always T1 T2 q kvs kvs2 K1 K2 (guards_ident kvs kvs2 G) N1 N2 Sh R1 R2 W1 W2).
       intros k v1 v2 Hin A. eapply Forall_forall in IH; [|exact Hin]. cbn [snd] in IH. apply IH.
-      eapply guards_dict_child; eassumption.
+      * eapply guards_dict_child; eassumption.
+      * rewrite opsv_dict_eq in OV. eapply opsv_dict_in; eassumption.
   - (* sets *)
-    rename l into ys. destruct G as (W1 & W2 & AF & _). cbn in W1, W2, AF.
-    apply (Good_set hatom udiff ops c conv bidir always) with (fr := false); assumption.
-  - rename l into ys. destruct G as (W1 & W2 & AF & _). cbn in W1, W2, AF.
-    apply (Good_set hatom udiff ops c conv bidir always) with (fr := true); assumption.
+    rename xs0 into ys. destruct G as (W1 & W2 & AF & _). cbn in W1, W2, AF.
+    apply (Good_set hatom udiff ops c conv bidir always Hinj false xs ys q W1 W2 AF).
+  - rename xs0 into ys. destruct G as (W1 & W2 & AF & _). cbn in W1, W2, AF.
+    apply (Good_set hatom udiff ops c conv bidir always Hinj true xs ys q W1 W2 AF).
+Qed.
+
+
+Lemma istrip0 x : istrip 0 x = x.
+Proof. unfold istrip. rewrite (imap_ext (@skipn pkey 0) (fun p => p)) by reflexivity. apply imap_id. Qed.
+
+Lemma sbase0 d : sbase 0 d = base d.
+Proof.
+  unfold sbase. rewrite (map_ext _ (fun l => l)); [apply map_id|].
+  intros l. rewrite (map_ext _ (fun x => x)); [apply map_id|]. exact istrip0.
+Qed.
+
+(* t1 + Delta(DeepDiff(t1, t2)) = t2 *)
+Theorem roundtrip_at ro ao t1 t2 :
+  guards t1 t2 -> opsv t1 t2 [] ->
+  let r := run_diff hatom udiff ops nos nos c t1 t2 in
+  let d := to_delta conv bidir always ops t1 t2 (fst r) (snd r) in
+  orders_ok_at ro ao d ->
+  exists t2', apply conv ro ao d t1 = (t2', 0) /\ veqb t2' t2 = true.
+Proof.
+  intros G OV r d HO.
+  pose proof (good_all t1 t2 [] G OV t1 t2 eq_refl eq_refl) as [Hm HG].
+  assert (Ed : d = D hatom udiff ops c conv bidir always t1 t2 t1 t2 []).
+  { unfold d, r, run_diff, D, E. destruct (diff hatom udiff ops nos nos c t1 t2 [] []) as [es rec]. reflexivity. }
+  rewrite Ed in *. destruct (apply_passes conv ro ao _ t1 HO Hm) as (P & HA & ->).
+  cbn [length] in HG. rewrite sbase0 in HG. destruct (HG P HA) as [He Hv].
+  assert (Eb : d_bidir (D hatom udiff ops c conv bidir always t1 t2 t1 t2 []) = bidir) by reflexivity.
+  rewrite Eb. eexists. split; [|exact Hv]. rewrite He. reflexivity.
+Qed.
+
+Theorem roundtrip ro ao t1 t2 :
+  (forall p xs ys, forallb is_atom xs = true -> forallb is_atom ys = true -> valid_ops xs ys (ops p xs ys)) ->
+  ro_ok ro -> ao_ok ao -> guards t1 t2 ->
+  let r := run_diff hatom udiff ops nos nos c t1 t2 in
+  exists t2', apply conv ro ao (to_delta conv bidir always ops t1 t2 (fst r) (snd r)) t1 = (t2', 0) /\ veqb t2' t2 = true.
+Proof.
+  intros Hops Hro Hao G r. apply roundtrip_at; [exact G|apply opsv_global; exact Hops|apply orders_ok_of_global; assumption].
 Qed.
 
 End Roundtrip.
